@@ -41,7 +41,9 @@ META = {
             '(the derived attributes are read from the updated objects). A discrepancy between model and code that is '
             'common to both copies of an exchange term (same amount added to the inner yp and the outer yp) leaves the '
             'theorems applicable (Props.C06.common_shift_*) and is reported in the evidence notes, not as a violation. '
-            'The momentum, age and position slots are transcribed and compared but the property makes no claim about them.',
+            'The momentum, age and position slots are transcribed and compared but the property makes no claim about them. '
+            'Generated scenarios give all soluble classes one shared composition list (the convention of the stratified plume '
+            'model: derivs_inner indexes beta[j], Cs[j] of every soluble particle by the position j in the common chemical list).',
     'technique': 'Lean 4 proof (ring + list induction) over a hand model + slot-wise differential execution against the real code + identities on real outputs',
 }
 GEN = []
